@@ -1103,6 +1103,13 @@ func (fr *Frame) builtin(in ssa.Instruction, b *ssa.Builtin, com *ssa.CallCommon
 		c.assumeG(c.le(c.sc.idxLit(0), r))
 		return one(r)
 	case "append":
+		// addressable as a sink: `call append #n requires E` with arg(0) the slice appended to and
+		// arg(1) the slice of appended elements (the variadic tail)
+		if fr.con != nil && len(com.Args) == 2 {
+			if _, isSl := com.Args[1].Type().Underlying().(*types.Slice); isSl {
+				fr.pseudoSinkKind("append", in, []TV{{T: fr.term(com.Args[0], st), Ty: com.Args[0].Type()}, {T: fr.term(com.Args[1], st), Ty: com.Args[1].Type()}}, st)
+			}
+		}
 		return fr.builtinAppend(in, com, st)
 	case "copy":
 		return fr.builtinCopy(in, com, st)
